@@ -47,6 +47,20 @@ pub fn run(ctx: &mut Ctx) {
         let o = TOpts::random(&mut rng);
         closure_case(ctx, &samples, &o, if mixed { "mixed" } else { "shaped" });
     }
+    // directed family: partially observed enums (the first variants never seen) below nullable parents
+    {
+        use crate::arrgen::IK;
+        let var = |i: u32, v: Val| Val::NewtypeVariant(i, format!("V{}", i), Box::new(v));
+        let rec = |v: Val| Val::Struct(vec![("e".into(), v)], 0);
+        let families: Vec<Vec<Val>> = vec![
+            vec![Val::Struct(vec![("o".into(), Val::Some(Box::new(rec(var(1, Val::Int(IK::I32, 1))))))], 0), Val::Struct(vec![("o".into(), Val::None)], 0)],
+            vec![Val::Struct(vec![("o".into(), Val::None)], 0), Val::Struct(vec![("o".into(), Val::Some(Box::new(rec(var(2, Val::Str("x".into()))))))], 0)],
+            vec![Val::Struct(vec![("l".into(), Val::Seq(vec![Val::Some(Box::new(rec(var(1, Val::Bool(true))))), Val::None]))], 0)],
+            vec![Val::Struct(vec![("s".into(), rec(var(3, Val::Int(IK::U8, 1))))], 0), Val::Struct(vec![], 0)],
+            vec![Val::Struct(vec![("o".into(), Val::Some(Box::new(rec(Val::UnitVariant(1, "B".into())))))], 0), Val::Struct(vec![("o".into(), Val::None)], 0)],
+        ];
+        for fam in &families { for b in [0u32, 1, 2, 256, 257, 511, 3, 17] { closure_case(ctx, fam, &TOpts::from_bits(b | 1), "unseen_variant_below_nullable"); } }
+    }
     // all 2^9 option sets on a fixed family
     let fam = if ctx.thorough { 40 } else { 6 };
     let mut frng = crate::rng::Rng::new(777);
